@@ -171,6 +171,30 @@ def build_kprog(seed, names):
             tab.append('{ "fk_%d_%d", %s, %d, &fk_%d_%d }' % (i, sh, lit(k), sh, i, sh))
     body.append('static const KEntry ktab_[] = {\n  ' + ',\n  '.join(tab) + '\n};')
     body.append('extern "C" __attribute__((visibility("default"))) const KEntry* cutk_table(int* n) { *n = %d; return ktab_; }' % len(tab))
+    # constant integral scalars (C02.const / C03.const): a*N, N*a, a/N, a*=N, a/=N with N a literal of each integral
+    # type - powers of two (where compilers substitute shifts and __builtin_constant_p paths fire), non-powers,
+    # values beyond 2^31 / 2^63, negatives; compiled under every configuration
+    ctypes = [('int8_t', 8, True), ('uint8_t', 8, False), ('int16_t', 16, True), ('uint16_t', 16, False), ('int32_t', 32, True), ('uint32_t', 32, False), ('int64_t', 64, True), ('uint64_t', 64, False), ('long long', 64, True), ('unsigned long long', 64, False)]
+    stab = []; rs = _mix(seed * 31337 + 9)
+    for ti, (tn, bits, sg) in enumerate(ctypes):
+        vals = [2, 4, 3, 10, 1 << (bits - 2), (1 << (bits - (1 if not sg else 2))) + 0, 7]
+        for _ in range(3):
+            rs = _mix(rs); vals.append(1 << (rs % (bits - 1))); rs = _mix(rs); vals.append(1 + rs % ((1 << (bits - 1)) - 1))
+        if not sg: vals += [(1 << bits) - 1, (1 << (bits - 1)), (1 << (bits - 1)) + 5, 200 if bits == 8 else (1 << bits) - 3]
+        else: vals += [-2, -8, -(1 << (bits - 1)), -3, -(1 << (bits - 2))]
+        vals = sorted(set(v for v in vals if (-(1 << (bits - 1)) if sg else 0) <= v <= ((1 << (bits - 1)) - 1 if sg else (1 << bits) - 1) and v != 0))
+        for j, v in enumerate(vals):
+            # literal of exactly this type
+            if bits < 64: L = 'static_cast<%s>(%d)' % (tn, v)
+            elif sg: L = ('static_cast<%s>(-9223372036854775807LL-1)' % tn) if v == -2**63 else 'static_cast<%s>(%dLL)' % (tn, v)
+            else: L = 'static_cast<%s>(%dULL)' % (tn, v)
+            exprs = ['(F(a) * %s).v' % L, '(%s * F(a)).v' % L, '(F(a) / %s).v' % L, 'h_muleq(a, %s)' % L, 'h_diveq(a, %s)' % L]
+            for sh, e in enumerate(exprs):
+                body.append('W fs_%d_%d_%d(int64_t a, int64_t, int64_t) { return %s; }' % (ti, j, sh, e))
+                stab.append('{ "fs_%d_%d_%d", %s, %d, %d, &fs_%d_%d_%d }' % (ti, j, sh, lit(v if v < 2**63 else v - 2**64), ti, sh, ti, j, sh))
+    body.append('struct SEntry { const char* name; int64_t n; int type; int shape; cut_fn fn; };')
+    body.append('static const SEntry stab_[] = {\n  ' + ',\n  '.join(stab) + '\n};')
+    body.append('extern "C" __attribute__((visibility("default"))) const SEntry* cuts_table(int* n) { *n = %d; return stab_; }' % len(stab))
     # generated expression programs: postfix strings over a b c (run-time operands), k<i> (constants) and the
     # operators + - (kind 0: exact model in the harness, C01.expr) plus * / n(eg) A(bs) f(loor) (kind 1: compared
     # across builds only, C08.prog). Every intermediate is tested (on the raw representation) for being a finite value; the program returns the value and that flag.
